@@ -271,12 +271,23 @@ class RecAcc(object):
         return self._acc.compute()
 
 
+def sum_with_run_attribute():
+    """A Sum whose class carries a data attribute named run (not callable)."""
+    import lena.math
+
+    class SumRun(lena.math.Sum):
+        run = "2023A"
+    return SumRun()
+
+
 def build_acc(a):
     import lena.flow
     import lena.math
     from . import flowlib
     if a == "sum":
         return lena.math.Sum()
+    if a == "sumrun":
+        return sum_with_run_attribute()
     if a == "last":
         return flowlib.Last()
     if a == "store1":
@@ -306,6 +317,10 @@ def build_stage2(st, fk):
     """Real element for a stage of the extended vocabulary (context-dependent selectors), else flowlib's."""
     import lena.flow
     from . import flowlib
+    if st["t"] == "map" and st.get("attr"):
+        # a Variable exposes its keyword attributes as (data) attributes: Variable(..., run="2023A").run == "2023A"
+        import lena.variables
+        return lena.variables.Variable("x", lambda d: d + 10, **{st["attr"]: "2023A"})
     if st["t"] == "cfilter":
         return lena.flow.Filter(st["k"] if st["form"] == "str" else _has_key(st["k"]))
     if st["t"] == "crunif":
@@ -369,6 +384,10 @@ def drive_chain(ch, n_values, fk, drv, bs=None, acc=None, copy_buf=True, form="t
             raise ValueError(form)
         if place == "alone":
             branches = [branch]
+        elif place == "afterstop":
+            # fill chains that raise LenaStopFill before the flow ends, listed before and after the chain
+            import lena.flow
+            branches = [(lena.flow.Slice(1), MarkAcc(1)), branch, (lena.flow.Slice(2), MarkAcc(3))]
         else:
             sa, sb = siblings(n_values)
             branches = {"first": [branch, sa, sb], "middle": [sa, branch, sb], "last": [sa, sb, branch]}[place]
@@ -397,7 +416,7 @@ def chain_key(ch):
     def one(st):
         t = st["t"]
         if t == "map":
-            return st["f"]
+            return st["f"] + ("[%s=]" % st["attr"] if st.get("attr") else "")
         if t == "filter":
             return "filter-" + st["p"]
         if t == "slice":
